@@ -291,7 +291,10 @@ func c14filter(c *an.Ctx) {
 				}
 				if cmp, ok := f.AsCmp(); ok {
 					// now.Sub(cur) <= inactivityTimeout
-					oc, ok := cmp.Oriented(func(x ssa.Value) bool { call, ok := an.Strip(x).(*ssa.Call); return ok && an.StdCallee(call, "time", "(Time).Sub") })
+					oc, ok := cmp.Oriented(func(x ssa.Value) bool {
+						call, ok := an.Strip(x).(*ssa.Call)
+						return ok && an.StdCallee(call, "time", "(Time).Sub")
+					})
 					if ok && (oc.Op == token.LEQ || oc.Op == token.LSS) && isParam(oc.Y, fn, 1) {
 						activeOK = true
 					}
@@ -324,7 +327,10 @@ func c14filter(c *an.Ctx) {
 					hasFlag = true
 				}
 				if cmp, ok := f.AsCmp(); ok {
-					oc, ok := cmp.Oriented(func(x ssa.Value) bool { call, ok := an.Strip(x).(*ssa.Call); return ok && an.StdCallee(call, "time", "Since") })
+					oc, ok := cmp.Oriented(func(x ssa.Value) bool {
+						call, ok := an.Strip(x).(*ssa.Call)
+						return ok && an.StdCallee(call, "time", "Since")
+					})
 					if ok && oc.Op == token.LSS && isParam(oc.Y, fn, 1) {
 						hasLife = true
 					}
@@ -413,6 +419,61 @@ func c14ephemeral(c *an.Ctx) {
 			}
 		}
 		c.Check(left0 && eph, fn, "registration dropped only when empty and ephemeral", rc.Pos(), "", "UNREGISTER removes a whole registration (and every other producer in it) without `left == 0 && #ephemeral`")
+	}
+	// the `left` UNREGISTER relies on is truthful: len(producers of k) or, only when k has no registration, 0
+	{
+		mapF := c.P.Field("nsqlookupd", "RegistrationDB", "registrationMap")
+		isRegLookup := func(v ssa.Value) *ssa.Lookup {
+			ex, ok := an.Strip(v).(*ssa.Extract)
+			if !ok {
+				return nil
+			}
+			lk, ok := ex.Tuple.(*ssa.Lookup)
+			if !ok || !isLoadOfField(lk.X, mapF) || !isParam(lk.Index, rp, 1) {
+				return nil
+			}
+			return lk
+		}
+		n := 0
+		for _, b := range rp.Blocks {
+			ret, ok := b.Instrs[len(b.Instrs)-1].(*ssa.Return)
+			if !ok || b == rp.Recover || len(ret.Results) != 2 {
+				continue
+			}
+			type leaf struct {
+				v     ssa.Value
+				facts []an.Fact
+			}
+			var leaves []leaf
+			v := an.Resolve(ret.Results[1])
+			if phi, ok := v.(*ssa.Phi); ok {
+				for i, e := range phi.Edges {
+					leaves = append(leaves, leaf{e, append(an.FactsAt(phi.Block().Preds[i]), an.FactsOnEdge(an.Edge{From: phi.Block().Preds[i], To: phi.Block()})...)})
+				}
+			} else {
+				leaves = append(leaves, leaf{v, an.FactsAt(b)})
+			}
+			for _, l := range leaves {
+				n++
+				good := false
+				if call, ok := an.Strip(l.v).(*ssa.Call); ok {
+					if a := lenArgOf(call); a != nil {
+						if ex, ok := an.Strip(a).(*ssa.Extract); ok && ex.Index == 0 && isRegLookup(ex) != nil {
+							good = true
+						}
+					}
+				}
+				if k, isC := an.ConstInt(l.v); isC && k == 0 {
+					for _, f := range l.facts {
+						if ex, ok := f.V.(*ssa.Extract); ok && ex.Index == 1 && !f.True && isRegLookup(ex) != nil {
+							good = true
+						}
+					}
+				}
+				c.Check(good, rp, "producers-left count is truthful", ret.Pos(), "", "RemoveProducer can report a count that is not len(producers of the registration) (0 is allowed only when the registration does not exist): UNREGISTER reads 0 as 'now empty' and drops an #ephemeral registration that other connections are still part of")
+			}
+		}
+		c.Check(n >= 2, rp, "producers-left returns located", rp.Pos(), "", "could not locate RemoveProducer's return values")
 	}
 	if reg := c.Fn("nsqlookupd", "(*LookupProtocolV1).REGISTER"); reg != nil {
 		ap := c.P.Func("nsqlookupd", "(*RegistrationDB).AddProducer")
